@@ -90,7 +90,23 @@ var errErrorInMessageHandler = StringValue("error in error handling")
 // RunContinuation runs the continuation c in the thread. It keeps running until
 // the next continuation is nil or an error occurs, in which case it returns the
 // error.
-func (t *Thread) RunContinuation(c Cont) (err error) {
+//
+// When it returns an error the run has been abandoned, so the to-be-closed
+// variables it left pending are closed (with the error) before the caller
+// sees the error: the close stack is back at its height before the run.  The
+// Go code that receives the error may well handle it itself (load with a
+// reader function, a debug hook, a finaliser, ...) rather than hand it to an
+// enclosing CallContext.
+func (t *Thread) RunContinuation(c Cont) error {
+	parent, h := t.currentCont, t.closeStack.size()
+	err := t.runContinuation(c)
+	if err != nil {
+		err = t.cleanupCloseStack(parent, h, err)
+	}
+	return err
+}
+
+func (t *Thread) runContinuation(c Cont) (err error) {
 	var next Cont
 	var errContCount = 0
 	if prev := t.currentCont; prev != nil {
